@@ -23,14 +23,29 @@ impl ScanFile {
             r.is_ok() ==> r->Ok_0@.len() == size && offset + size <= self.size_spec(),
             // a short file surfaces as a Bincode-class error (IntoBincodeIfUnexpectedEof, Kani: check_eof_class)
             r.is_err() && offset + size > self.size_spec() ==> r->Err_0 == AnyErr::Pearl(Error { kind: ErrorKind::Bincode(()) }),
-            r.is_err() ==> r->Err_0 == AnyErr::Pearl(Error { kind: ErrorKind::Bincode(()) }) || r->Err_0 is Io,
+            r.is_err() ==> r->Err_0 == AnyErr::Pearl(Error { kind: ErrorKind::Bincode(()) }) || (r->Err_0 is Io && r->Err_0->Io_0 != IoKind::UnexpectedEof),
+    { unimplemented!() }
+    // the same read WITHOUT the error mapping: a short file surfaces as io::ErrorKind::UnexpectedEof
+    #[verifier::external_body]
+    pub fn read_exact_at_allocate(&self, size: usize, offset: u64) -> (r: Result<BytesMut, AnyErr>)
+        ensures
+            r.is_ok() ==> r->Ok_0@.len() == size && offset + size <= self.size_spec(),
+            r.is_err() && offset + size > self.size_spec() ==> r->Err_0 == AnyErr::Io(IoKind::UnexpectedEof),
+            r.is_err() ==> r->Err_0 is Io,
+    { unimplemented!() }
+    #[verifier::external_body]
+    pub fn read_exact_at(&self, buf: BytesMut, offset: u64) -> (r: Result<BytesMut, AnyErr>)
+        ensures
+            r.is_ok() ==> r->Ok_0@.len() == buf@.len() && offset + buf@.len() <= self.size_spec(),
+            r.is_err() && offset + buf@.len() > self.size_spec() ==> r->Err_0 == AnyErr::Io(IoKind::UnexpectedEof),
+            r.is_err() ==> r->Err_0 is Io,
     { unimplemented!() }
     #[verifier::external_body]
     pub fn read_exact_at_eof(&self, buf: BytesMut, offset: u64) -> (r: Result<BytesMut, AnyErr>)
         ensures
             r.is_ok() ==> r->Ok_0@.len() == buf@.len() && offset + buf@.len() <= self.size_spec(),
             r.is_err() && offset + buf@.len() > self.size_spec() ==> r->Err_0 == AnyErr::Pearl(Error { kind: ErrorKind::Bincode(()) }),
-            r.is_err() ==> r->Err_0 == AnyErr::Pearl(Error { kind: ErrorKind::Bincode(()) }) || r->Err_0 is Io,
+            r.is_err() ==> r->Err_0 == AnyErr::Pearl(Error { kind: ErrorKind::Bincode(()) }) || (r->Err_0 is Io && r->Err_0->Io_0 != IoKind::UnexpectedEof),
     { unimplemented!() }
 }
 impl BytesMut {
